@@ -102,8 +102,33 @@ func runVariants(p *Property, repo, vdir string, base *Ctx) []map[string]any {
 	}
 	defer os.RemoveAll(tmp)
 
+	// how many patches of other properties are relevant at all (for the window arithmetic)
+	nOtherTotal := 0
+	for _, v := range vs {
+		if v.Patch == "" || !strings.HasPrefix(v.ID, "refactors/") || v.Expect != "silent" || strings.Contains(v.ID, p.ID+"-") {
+			continue
+		}
+		pb, err := os.ReadFile(filepath.Join(vdir, v.Patch))
+		if err != nil {
+			continue
+		}
+		files, err := applyUnifiedDiff(repo, string(pb))
+		if err == nil && relevant(v, files) {
+			nOtherTotal++
+		}
+	}
+	seed := 0
+	fmt.Sscanf(os.Getenv("VERIF_SEED"), "%d", &seed)
+	if seed < 0 {
+		seed = -seed
+	}
+	windowStart := 0
+	if nOtherTotal > 0 {
+		windowStart = (seed * selfTestWindow) % nOtherTotal
+	}
+	nOther := 0
 	results := make([]map[string]any, len(vs))
-	sem := make(chan struct{}, 6)
+	sem := make(chan struct{}, 8)
 	var wg sync.WaitGroup
 	for i, v := range vs {
 		i, v := i, v
@@ -147,6 +172,15 @@ func runVariants(p *Property, repo, vdir string, base *Ctx) []map[string]any {
 			res["outcome"] = "skipped: touches no file in which this property has an obligation (see refactors/TABLE.md for the full cross table)"
 			continue
 		}
+		// the other properties' patches are evaluated in a window of at most selfTestWindow per run;
+		// VERIF_SEED moves the window, so successive runs cover all of them
+		if strings.HasPrefix(v.ID, "refactors/") && v.Expect == "silent" && !strings.Contains(v.ID, p.ID+"-") {
+			nOther++
+			if !inWindow(nOther-1, windowStart, selfTestWindow, nOtherTotal) {
+				res["outcome"] = "skipped: outside this run's window of other properties' patches (VERIF_SEED moves it)"
+				continue
+			}
+		}
 		wg.Add(1)
 		go func() {
 			defer wg.Done()
@@ -158,6 +192,10 @@ func runVariants(p *Property, repo, vdir string, base *Ctx) []map[string]any {
 			os.WriteFile(vf, b, 0o644)
 			cmd := exec.Command(exe, "-property", p.ID, "-tier", "quick", "-repo", repo, "-variant", vf, "-json-out", of)
 			cmd.Env = append(os.Environ(), "VERIF_DIR="+vdir)
+			if os.Getenv("GOMAXPROCS") == "" {
+				// eight children at a time on 16 cores: four threads each keeps them off each other's cores
+				cmd.Env = append(cmd.Env, "GOMAXPROCS=4")
+			}
 			out, err := cmd.CombinedOutput()
 			if err != nil {
 				res["outcome"] = "error: " + err.Error() + " " + string(out)
@@ -264,4 +302,21 @@ func knownRefactorAlarms(vdir string) map[string]string {
 		json.Unmarshal(b, &m)
 	}
 	return m
+}
+
+// selfTestWindow: how many behaviour-preserving patches written for other properties one thorough
+// run re-evaluates for this property (its own seeds, its own keep commits, the known alarms and the
+// hand-written variants are always evaluated).
+const selfTestWindow = 80
+
+// inWindow: index i lies in the cyclic window [start, start+size) of a sequence of n elements.
+func inWindow(i, start, size, n int) bool {
+	if n <= size {
+		return true
+	}
+	d := i - start
+	if d < 0 {
+		d += n
+	}
+	return d < size
 }
